@@ -57,6 +57,8 @@ func TestC02Directed(t *testing.T) {
 		{"swap next to a symlink named like a temporary name", Tree{"x": f(1, 70000), "y": f(2, 70000), ".butler-rename-1": l("x"), ".butler-rename-2": l("y")}, Tree{"x": f(2, 70000), "y": f(1, 70000), ".butler-rename-1": l("x"), ".butler-rename-2": l("y")}},
 		{"swap next to a directory named like a temporary name", Tree{"bin/x": f(1, 70000), "bin/y": f(2, 70000), "bin/.butler-rename-1/keep": f(3, 100), "bin/.butler-rename-2/keep": f(4, 100)}, Tree{"bin/x": f(2, 70000), "bin/y": f(1, 70000), "bin/.butler-rename-1/keep": f(3, 100), "bin/.butler-rename-2/keep": f(4, 100)}},
 		{"swap of two files whose names are close to the length limit", Tree{longName: f(1, 70000), longName + "2": f(2, 70000)}, Tree{longName: f(2, 70000), longName + "2": f(1, 70000)}},
+		{"swap next to a directory that is named like a temporary name and holds nothing but a directory", Tree{"bin/x": f(1, 70000), "bin/y": f(2, 70000), "bin/.butler-rename-1/sub/keep": f(3, 100), "bin/.butler-rename-2/sub/keep": f(4, 100)}, Tree{"bin/x": f(2, 70000), "bin/y": f(1, 70000), "bin/.butler-rename-1/sub/keep": f(3, 100), "bin/.butler-rename-2/sub/keep": f(4, 100)}},
+		{"rename chain in the root next to such a directory", Tree{"a": f(1, 70000), "b": f(2, 70000), ".butler-rename-1/sub/keep": f(3, 100)}, Tree{"b": f(1, 70000), "c": f(2, 70000), ".butler-rename-1/sub/keep": f(3, 100)}},
 		{"rename chain next to files named like temporary names", Tree{"a": f(1, 70000), "b": f(2, 70000), "b.butler-rename-1": f(3, 100), ".butler-rename-1": f(4, 100)}, Tree{"b": f(1, 70000), "c": f(2, 70000), "b.butler-rename-1": f(3, 100), ".butler-rename-1": f(4, 100)}},
 		{"parked file next to a new file named like a parking name", Tree{"q": f(4, 1000)}, Tree{"q/inner": f(4, 1000), ".butler-parked-0": f(5, 100)}},
 		{"file under dir that becomes symlink is patched elsewhere", Tree{"d/x": f(1, 140000)}, Tree{"d": l("e"), "e/x": append2(f(1, 140000), 3)}},
